@@ -204,6 +204,12 @@ func runCase(c *Case) (nontrivial int, err error) {
 			if b, rerr := os.ReadFile(origin); rerr == nil {
 				os.WriteFile(origin+".verif-new", b, 0o644)
 				os.Rename(origin+".verif-new", origin)
+				if c.Site.origin() == "Casketfile" {
+					// the fixture's second name for the Casketfile follows it to the new file
+					alias := filepath.Join(t.Root, "dir", "alias-of-casketfile.conf")
+					os.Remove(alias)
+					os.Link(origin, alias)
+				}
 			}
 			continue
 		}
@@ -438,7 +444,7 @@ func clip(b []byte) string {
 // ---------------------------------------------------------------------------
 // generators
 
-var segs = []string{"..", ".", "", "%2e%2e", "%2E", "%2e", "%2f", "%5c", "\\", "..\\", "a.txt", "A.TXT", "b.html", "c.txt", "dir", "Dir", "sub", "deep", "noindex", "inner", "index.html", "secret", "public", "Casketfile", "casketfile", "CASKETFILE", "Casketfile.", "Casketfile ", "Casketfile%20", "%43asketfile", "outside", "o.txt", "outside.txt", "root", ".hidden", "h.txt", "sp%20ace", "sp ace", "g.txt", "a.txt.gz", "d.txt", "UPPER.TXT", "upper.txt", "é", "%00", "a.txt%00", "...", "..;", "%252e%252e"}
+var segs = []string{"..", ".", "", "%2e%2e", "%2E", "%2e", "%2f", "%5c", "\\", "..\\", "a.txt", "A.TXT", "b.html", "c.txt", "dir", "Dir", "sub", "deep", "noindex", "inner", "index.html", "secret", "public", "Casketfile", "casketfile", "CASKETFILE", "Casketfile.", "Casketfile ", "Casketfile%20", "%43asketfile", "outside", "o.txt", "outside.txt", "root", ".hidden", "h.txt", "sp%20ace", "sp ace", "g.txt", "a.txt.gz", "d.txt", "UPPER.TXT", "upper.txt", "é", "%00", "a.txt%00", "...", "..;", "%252e%252e", "alias-of-casketfile.conf"}
 var joins = []string{"/", "/", "/", "//", "%2f", "/./", "\\"}
 
 func genTarget(t *rapid.T, lb string) string {
@@ -468,7 +474,7 @@ func genTarget(t *rapid.T, lb string) string {
 	return tgt
 }
 
-var realTargets = []string{"/", "/a.txt", "/b.html", "/c.txt", "/dir", "/dir/", "/dir/b.txt", "/dir/sub/", "/dir/sub/c.txt", "/noindex/", "/noindex", "/noindex/d.txt", "/Casketfile", "/index.html", "/a.txt/", "/noindex/inner/", "/sp%20ace/g.txt", "/.hidden/h.txt",
+var realTargets = []string{"/", "/a.txt", "/b.html", "/c.txt", "/dir", "/dir/", "/dir/b.txt", "/dir/sub/", "/dir/sub/c.txt", "/noindex/", "/noindex", "/noindex/d.txt", "/Casketfile", "/index.html", "/a.txt/", "/noindex/inner/", "/sp%20ace/g.txt", "/.hidden/h.txt", "/dir/alias-of-casketfile.conf", "/dir/./alias-of-casketfile.conf", "/dir//alias-of-casketfile.conf",
 	"/?archive=zip", "/?archive=tar", "/?archive=tar.gz", "/noindex/?archive=zip", "/dir/sub/?archive=tar", "/noindex/?archive=tar.gz", "//noindex", "//dir", "///dir", "//a.txt/", "///a.txt/", "///example.com%2f../a.txt/", "//example.com/..", "/%2e%2e/outside/o.txt", "/..%2foutside.txt", "/dir/../../outside/o.txt"}
 
 func genReq(t *rapid.T, lb string) Req {
